@@ -6,6 +6,7 @@ pub mod ops;
 pub mod checks;
 pub mod checks2;
 pub mod checks3;
+pub mod checks4;
 pub mod corpus;
 
 use cx::Cx;
